@@ -62,7 +62,8 @@ class Case final : public sim::CaseBase {
     if (form == kIterator && kind == kMixed) {
       kind = kShared;
     }
-    const int n = 1 + static_cast<int>(g.Draw(4));
+    // the iterator forms also accept an empty range (returns at once, true)
+    const int n = form == kIterator ? static_cast<int>(g.Draw(5)) : 1 + static_cast<int>(g.Draw(4));
     deadline = kDeadlines[g.Draw(6)];
     for (int i = 0; i < n; ++i) {
       Item it;
